@@ -110,7 +110,7 @@ impl World {
             }
         }
         for z in &self.byz {
-            let d = crate::rig::sha(&[&round.to_le_bytes(), &hqr.to_le_bytes()]);
+            let d = Rig::timeout_digest(round, hqr);
             votes.push((self.rig.keys[*z].0, self.rig.sign(*z, &d), hqr));
         }
         Some(TC { round, votes })
